@@ -34,6 +34,10 @@ impl Fs {
 #[derive(Clone)]
 pub struct VolCfg { pub fs: Fs, pub container: &'static str, pub kind: DiskKind, pub kind_name: &'static str, pub flat: bool }
 
+/// block counts of the `a2-hd-<n>` configurations of the scripted scenarios: a bitmap of exactly one full block (4096),
+/// of two blocks (4600), of exactly two full blocks (8192)
+pub const BIG_PO_BLOCKS: [u16; 3] = [4096, 4600, 8192];
+
 fn mk_img(container: &str, kind: DiskKind) -> Option<Box<dyn DiskImage>> {
     Some(match (container, kind) {
         ("d13", names::A2_DOS32_KIND) => Box::new(img::dsk_d13::D13::create(35)),
@@ -42,6 +46,8 @@ fn mk_img(container: &str, kind: DiskKind) -> Option<Box<dyn DiskImage>> {
         ("po", names::A2_400_KIND) => Box::new(img::dsk_po::PO::create(800)),
         ("po", names::A2_800_KIND) => Box::new(img::dsk_po::PO::create(1600)),
         ("po", names::A2_HD_MAX) => Box::new(img::dsk_po::PO::create(65535)),
+        // hard-disk sized volumes just large enough for a volume bitmap of two blocks (more than 4096 blocks)
+        ("po", k) if BIG_PO_BLOCKS.iter().any(|n| img::dsk_po::PO::create(*n).kind() == k) => Box::new(img::dsk_po::PO::create(*BIG_PO_BLOCKS.iter().find(|n| img::dsk_po::PO::create(**n).kind() == k).unwrap())),
         ("woz1", k) => Box::new(img::woz1::Woz1::create(254, k)),
         ("woz2", k) => Box::new(img::woz2::Woz2::create(254, k)),
         ("nib", k) => Box::new(img::nib::Nib::create(254, k)),
@@ -205,6 +211,10 @@ pub struct World {
     forced: Vec<Op>,
     /// DOS 3.x on a flat DO / D13 image: the same for the concrete DOS model (driver family `fsd`)
     dos_op: Option<(String, Option<String>)>,
+    /// the independent reader's (free count, nothing leaks) after the previous step
+    last_reading: Option<(usize, bool)>,
+    /// a refused operation changed the free map: from here on only the count is compared (C04 speaks of successful histories)
+    leak_tainted: bool,
 }
 
 fn canon_path(fs: Fs, p: &str) -> String {
@@ -368,7 +378,15 @@ fn gen_nchunks(fs: Fs, rng: &mut Rng, free: usize, focus: Focus) -> usize {
     n.max(1)
 }
 
+/// how often each payload shape was drawn (distribution counters `chunk-shape:<name>`, written at the end of the run)
+static CHUNK_SHAPES: std::sync::Mutex<BTreeMap<&'static str, u64>> = std::sync::Mutex::new(BTreeMap::new());
+fn shape(name: &'static str) { if let Ok(mut m) = CHUNK_SHAPES.lock() { *m.entry(name).or_insert(0) += 1; } }
+
 fn gen_chunk(rng: &mut Rng, len: usize) -> Vec<u8> {
+    // about a third of the chunks: the shared structured payloads (uniform, two-periodic, CR/LF only, k-periodic, runs,
+    // sector mixtures, one differing byte, zeros) on which the container encodings (TD0, IMD, nibble) take special paths
+    if rng.below(3) == 0 { let (v, name) = gen_data(rng, len); shape(name); return v; }
+    shape("fs-own");
     match rng.below(6) {
         0 => vec![rng.byte(); len],
         1 => { let mut v = vec![0u8; len]; if len > 0 { v[rng.below(len)] = rng.byte() | 1; } v }
@@ -389,7 +407,18 @@ fn gen_chunk(rng: &mut Rng, len: usize) -> Vec<u8> {
 // ------------------------------------------------------------------------------------------
 // operations
 
-enum Op { Put { path: String, nchunks: usize, holes: bool, last_len: usize, ftype_sel: usize }, Delete(String), Rename(String, String), Lock(String), Unlock(String), Retype(String, usize), Mkdir(String), PutDup(String), RenameOnto(String, String), GetMissing(String), DeleteMissing(String), Protect(String), Unprotect(String), PutBad(usize) }
+pub enum Op {
+    /// `idx` = explicit chunk indices (scripted sparse patterns); None = `nchunks` chunks, random holes if `holes`
+    Put { path: String, nchunks: usize, holes: bool, last_len: usize, ftype_sel: usize, idx: Option<Vec<usize>> },
+    /// delete of a directory (empty: must succeed; non-empty: must be refused and change nothing)
+    DeleteDir(String),
+    /// hand out the image (flush of the write-back buffers) and go on with the same object
+    Save,
+    /// save, load the bytes again (true: with the file-extension hint) and go on with the re-loaded object
+    Reload(bool),
+    /// block-level path of the DiskFS trait: read a block and write the same bytes back (must change nothing)
+    RawRewrite(usize),
+    Delete(String), Rename(String, String), Lock(String), Unlock(String), Retype(String, usize), Mkdir(String), PutDup(String), RenameOnto(String, String), GetMissing(String), DeleteMissing(String), Protect(String), Unprotect(String), PutBad(usize) }
 
 pub struct Verdicts<'a> { pub out: &'a mut Out, pub focus: Focus, pub idx: usize, pub cfgid: String }
 impl<'a> Verdicts<'a> {
@@ -427,9 +456,13 @@ pub struct FsRun<'a> { pub ctx: &'a mut Ctx, pub focus: Focus }
 pub fn run(ctx: &mut Ctx, focus: Focus) {
     let cfgs = all_cfgs(ctx.tier_thorough);
     let n_hist = match focus { Focus::C06 => ctx.n(90, 500), _ => ctx.n(120, 900) };
+    // development aid: only the scripted scenarios
+    let n_hist = if std::env::var("A2V_ONLY_SCENARIOS").is_ok() { 0 } else { n_hist };
     let mut rng = Rng::new(ctx.seed ^ (focus as u64) << 32);
     let mut drv = Drv::spawn();
     if drv.is_none() { ctx.out.count("driver-missing"); }
+    // the scripted scenario histories (regression corpus of hard-to-reach states) run first, in every tier
+    run_scenarios(ctx, focus, &mut drv);
     for idx in 0..n_hist {
         let mut crng = rng.fork(idx as u64);
         if !ctx.out.wants(idx) { continue; }
@@ -445,11 +478,12 @@ pub fn run(ctx: &mut Ctx, focus: Focus) {
         if let Some(cfg) = cfgs.iter().find(|c| c.fs == Fs::Pascal && c.flat && c.container == "po") {
             let cfg = cfg.clone();
             let mut crng = rng.fork(n_hist as u64);
-            let forced = vec![Op::PutBad(9), Op::Put { path: "KEEP".to_string(), nchunks: 3, holes: false, last_len: 100, ftype_sel: 1 }];
+            let forced = vec![Op::PutBad(9), Op::Put { path: "KEEP".to_string(), nchunks: 3, holes: false, last_len: 100, ftype_sel: 1, idx: None }];
             one_history(ctx, focus, n_hist, &cfg, 2, &mut crng, drv.as_mut(), forced);
         }
     }
     if let Some(d) = &drv { ctx.out.count_n("lean-requests", d.requests); }
+    if let Ok(m) = CHUNK_SHAPES.lock() { for (k, v) in m.iter() { ctx.out.count_n(&format!("chunk-shape:{}", k), *v); } }
 }
 
 fn dump_units(w: &mut World) -> Option<(usize, Vec<Vec<u8>>)> {
@@ -530,37 +564,113 @@ fn post_step(w: &mut World, vd: &mut Verdicts, drv: &mut Option<&mut Drv>, tie: 
     }
 }
 
-fn one_history(ctx: &mut Ctx, focus: Focus, idx: usize, cfg: &VolCfg, steps: usize, rng: &mut Rng, mut drv: Option<&mut Drv>, forced: Vec<Op>) {
-    let cfgid = format!("{}/{}/{}", cfg.fs.id(), cfg.container, cfg.kind_name);
-    ctx.out.count(&format!("cfg:{}", cfgid));
-    let disk = match guarded(|| make_volume(cfg)) {
-        Ok(Ok(d)) => d,
-        Ok(Err(e)) => { ctx.out.count(&format!("mkvol-error:{}:{}", cfgid, e)); return; }
-        Err(p) => { let mut vd = Verdicts { out: &mut ctx.out, focus, idx, cfgid: cfgid.clone() }; vd.panic(&p, "format", &[]); return; }
-    };
-    let mut w = World { cfg: cfg.clone(), disk, files: BTreeMap::new(), dirs: BTreeSet::new(), chunk_len: 0, hist: Vec::new(), lean_op: None, last_op: None, pas_op: None, dos_op: None, forced: Vec::new() };
-    w.forced = forced;
-    w.chunk_len = match guarded(|| w.disk.new_fimg(None, false, if cfg.fs.is_cpm() || cfg.fs == Fs::Fat { "A.TXT" } else { "A" })) { Ok(Ok(f)) => f.chunk_len, _ => 512 };
-    let mut tie = LeanTie { prev: Vec::new(), opened: false };
-    let use_lean = drv.is_some() && (cfg.flat || cfg.fs.is_cpm()) && lean_supported(cfg.fs);
-    // byte-exact tie of the concrete Pascal model (Lean `Model/Fs/Pascal.lean`): Pascal on a flat PO image only
-    let use_pas = use_lean && cfg.fs == Fs::Pascal && cfg.flat && cfg.container == "po" && std::env::var("A2V_NO_FSP").is_err();
-    // byte-exact tie of the concrete DOS 3.x model (Lean `Model/Fs/Dos3x.lean`): DOS 3.3 on flat DO, DOS 3.2 on flat D13
-    let use_dos = use_lean && cfg.fs.is_dos() && cfg.flat && matches!(cfg.container, "do" | "d13") && std::env::var("A2V_NO_FSD").is_err();
-    let mut canon: Vec<u8> = cfgid.as_bytes().to_vec();
-    let mut nontrivial = false;
-    let mut vd = Verdicts { out: &mut ctx.out, focus, idx, cfgid: cfgid.clone() };
-    if use_lean {
-        if let Some(d) = drv.as_deref_mut() {
-            if let Some(e) = lean_sync(d, &mut tie, &mut w) { vd.out.count(&format!("lean-sync-error:{}", e)); }
-            else {
-                lean_check(d, &mut w, &mut vd, "format", None);
-                if cfg.fs.is_cpm() { super::fs_cpm::after_step(d, &mut w, &mut vd, "format"); }
-                if use_pas { pas_tie(d, &mut w, &mut vd, &format!("format {} {} {} ok", hxs("VERIF"), 0xee, hx(&pas_date())), None, "format"); pas_queries(d, &mut w, &mut vd, "format"); }
-                if use_dos { dos_tie(d, &mut w, &mut vd, &format!("init {} 254 ok", if cfg.fs == Fs::Dos32 { 13 } else { 16 }), None, "format"); }
+/// one history in progress: the volume and its reference state, the verdict sink, the Lean tie.  Every operation —
+/// generated or scripted — goes through `step`: real call, API oracles, mirror of the saved image into the driver,
+/// per-step refinement check, byte-exact concrete-model ties.
+pub struct Hist<'a> {
+    pub w: World,
+    pub vd: Verdicts<'a>,
+    drv: Option<&'a mut Drv>,
+    tie: LeanTie,
+    use_lean: bool, use_pas: bool, use_dos: bool,
+    canon: Vec<u8>,
+    nontrivial: bool,
+    /// an operation panicked or broke the reference state: nothing more is executed
+    pub dead: bool,
+    /// `stat` failed: the history is dropped as before (no end-of-history checks)
+    stat_failed: bool,
+    /// scripted scenario name (distribution counters `reach:<scenario>:<milestone>`)
+    pub scenario: &'static str,
+}
+
+impl<'a> Hist<'a> {
+    fn open(out: &'a mut Out, focus: Focus, idx: usize, cfg: &VolCfg, mut drv: Option<&'a mut Drv>, forced: Vec<Op>) -> Option<Hist<'a>> {
+        let cfgid = format!("{}/{}/{}", cfg.fs.id(), cfg.container, cfg.kind_name);
+        out.count(&format!("cfg:{}", cfgid));
+        let disk = match guarded(|| make_volume(cfg)) {
+            Ok(Ok(d)) => d,
+            Ok(Err(e)) => { out.count(&format!("mkvol-error:{}:{}", cfgid, e)); return None; }
+            Err(p) => { let mut vd = Verdicts { out, focus, idx, cfgid: cfgid.clone() }; vd.panic(&p, "format", &[]); return None; }
+        };
+        let mut w = World { cfg: cfg.clone(), disk, files: BTreeMap::new(), dirs: BTreeSet::new(), chunk_len: 0, hist: Vec::new(), lean_op: None, last_op: None, pas_op: None, dos_op: None, forced: Vec::new(), last_reading: None, leak_tainted: false };
+        w.forced = forced;
+        w.chunk_len = match guarded(|| w.disk.new_fimg(None, false, if cfg.fs.is_cpm() || cfg.fs == Fs::Fat { "A.TXT" } else { "A" })) { Ok(Ok(f)) => f.chunk_len, _ => 512 };
+        let mut tie = LeanTie { prev: Vec::new(), opened: false };
+        let use_lean = drv.is_some() && (cfg.flat || cfg.fs.is_cpm()) && lean_supported(cfg.fs);
+        // byte-exact tie of the concrete Pascal model (Lean `Model/Fs/Pascal.lean`): Pascal on a flat PO image only
+        let use_pas = use_lean && cfg.fs == Fs::Pascal && cfg.flat && cfg.container == "po" && std::env::var("A2V_NO_FSP").is_err();
+        // byte-exact tie of the concrete DOS 3.x model (Lean `Model/Fs/Dos3x.lean`): DOS 3.3 on flat DO, DOS 3.2 on flat D13
+        let use_dos = use_lean && cfg.fs.is_dos() && cfg.flat && matches!(cfg.container, "do" | "d13") && std::env::var("A2V_NO_FSD").is_err();
+        let canon: Vec<u8> = cfgid.as_bytes().to_vec();
+        let mut vd = Verdicts { out, focus, idx, cfgid: cfgid.clone() };
+        if use_lean {
+            if let Some(d) = drv.as_deref_mut() {
+                if let Some(e) = lean_sync(d, &mut tie, &mut w) { vd.out.count(&format!("lean-sync-error:{}", e)); }
+                else {
+                    lean_check(d, &mut w, &mut vd, "format", None);
+                    if cfg.fs.is_cpm() { super::fs_cpm::after_step(d, &mut w, &mut vd, "format"); }
+                    if use_pas { pas_tie(d, &mut w, &mut vd, &format!("format {} {} {} ok", hxs("VERIF"), 0xee, hx(&pas_date())), None, "format"); pas_queries(d, &mut w, &mut vd, "format"); }
+                    if use_dos { dos_tie(d, &mut w, &mut vd, &format!("init {} 254 ok", if cfg.fs == Fs::Dos32 { 13 } else { 16 }), None, "format"); }
+                }
             }
         }
+        Some(Hist { w, vd, drv, tie, use_lean, use_pas, use_dos, canon, nontrivial: false, dead: false, stat_failed: false, scenario: "" })
     }
+
+    /// free count before the next operation; a failing `stat` ends the history
+    fn free(&mut self) -> Option<usize> {
+        if self.dead { return None; }
+        match self.w.free() {
+            Ok(f) => Some(f),
+            Err(e) => { if e.contains(".rs:") { let h = self.w.hist.clone(); self.vd.panic(&e, "stat", &h); } self.dead = true; self.stat_failed = true; None }
+        }
+    }
+
+    /// execute one operation (with the free count taken just before it) and everything that follows a step
+    fn step_at(&mut self, op: Op, rng: &mut Rng, free: usize) -> String {
+        if self.dead { return String::from("ABORT dead"); }
+        self.w.lean_op = None; self.w.last_op = None; self.w.pas_op = None; self.w.dos_op = None;
+        let t0 = std::time::Instant::now();
+        let desc = apply_op(&mut self.w, op, rng, free, &mut self.vd, &mut self.nontrivial);
+        let t1 = t0.elapsed().as_secs_f64();
+        self.canon.extend_from_slice(desc.as_bytes());
+        if desc.starts_with("ABORT") { self.dead = true; return desc; }
+        post_step(&mut self.w, &mut self.vd, &mut self.drv, &mut self.tie, self.use_lean, self.use_pas, self.use_dos, &desc);
+        if std::env::var("A2V_STEP_TIME").is_ok() { eprintln!("   step {:.2}s + {:.2}s  {}", t1, t0.elapsed().as_secs_f64() - t1, desc.chars().take(90).collect::<String>()); }
+        desc
+    }
+
+    pub fn step(&mut self, op: Op, rng: &mut Rng) -> String {
+        match self.free() { Some(f) => self.step_at(op, rng, f), None => String::from("ABORT stat") }
+    }
+
+    /// end of history: everything still reads back (C01), protected files are intact (C19), and the volume survives save/reload (C06)
+    fn finish(mut self, rng: &mut Rng) -> Option<(Vec<u8>, bool, String)> {
+        if self.stat_failed { return None; }
+        check_all_files(&mut self.w, &mut self.vd, Focus::C01, "all-files-read-back");
+        check_all_files(&mut self.w, &mut self.vd, Focus::C19, "protected-files-intact");
+        check_all_files(&mut self.w, &mut self.vd, Focus::C02, "all-files-intact-at-end");
+        if self.vd.focus == Focus::C06 { check_reload(&mut self.w, &mut self.vd, rng); }
+        if self.w.hist.len() >= 3 { self.nontrivial = self.nontrivial || self.w.files.len() >= 2; }
+        let sample = format!("idx={} cfg={} steps={} files={} history=[{}]", self.vd.idx, self.vd.cfgid, self.w.hist.len(), self.w.files.len(), self.w.hist.iter().take(12).cloned().collect::<Vec<_>>().join("; "));
+        Some((self.canon, self.nontrivial, sample))
+    }
+}
+
+/// extra operations of the random generator, drawn from a stream of their own so that the main stream of a history
+/// is the one it was before they existed: save / save-and-reload in mid-history (all file systems and containers),
+/// delete of a directory (file systems with directories)
+fn extra_op(w: &World, aux: &mut Rng) -> Option<Op> {
+    let r = aux.below(1000);
+    if r < 25 { return Some(Op::Reload(aux.chance(60))); }
+    if r < 40 { return Some(Op::Save); }
+    if r < 90 && w.fs().has_dirs() && !w.dirs.is_empty() { let d: Vec<&String> = w.dirs.iter().collect(); return Some(Op::DeleteDir((*aux.pick(&d)).clone())); }
+    None
+}
+
+fn one_history(ctx: &mut Ctx, focus: Focus, idx: usize, cfg: &VolCfg, steps: usize, rng: &mut Rng, drv: Option<&mut Drv>, forced: Vec<Op>) {
+    let mut h = match Hist::open(&mut ctx.out, focus, idx, cfg, drv, forced) { Some(h) => h, None => return };
+    let mut aux = Rng::new(rng.0 ^ 0x5CE7A410_0000_0000u64 ^ idx as u64);
     // CP/M 3 scenario: the same 8+3 name in two user areas, both password protected, then one of them unprotected
     // (entries of different user areas must never be confused; protection is per file)
     if cfg.fs == Fs::Cpm3 && rng.chance(60) {
@@ -569,43 +679,36 @@ fn one_history(ctx: &mut Ctx, focus: Focus, idx: usize, cfg: &VolCfg, steps: usi
         let n1 = if u1 == 0 { base.clone() } else { format!("{}:{}", u1, base) };
         let n2 = format!("{}:{}", u2, base);
         let mut script: Vec<Op> = vec![
-            Op::Put { path: n1.clone(), nchunks: rng.range(1, 20), holes: false, last_len: 77, ftype_sel: 0 },
-            Op::Put { path: n2.clone(), nchunks: rng.range(1, 3), holes: false, last_len: 99, ftype_sel: 0 },
+            Op::Put { path: n1.clone(), nchunks: rng.range(1, 20), holes: false, last_len: 77, ftype_sel: 0, idx: None },
+            Op::Put { path: n2.clone(), nchunks: rng.range(1, 3), holes: false, last_len: 99, ftype_sel: 0, idx: None },
             Op::Protect(canon_path(cfg.fs, &n1)), Op::Protect(canon_path(cfg.fs, &n2)),
         ];
         if rng.chance(50) { script.push(Op::Lock(canon_path(cfg.fs, &n2))); }
         script.push(Op::Unprotect(canon_path(cfg.fs, if rng.chance(50) { &n1 } else { &n2 })));
         for op in script {
-            let free = w.free().unwrap_or(0);
-            w.lean_op = None; w.last_op = None; w.pas_op = None; w.dos_op = None;
-            let d = apply_op(&mut w, op, rng, free, &mut vd, &mut nontrivial);
-            canon.extend_from_slice(d.as_bytes());
-            if d.starts_with("ABORT") { break; }
-            post_step(&mut w, &mut vd, &mut drv, &mut tie, use_lean, use_pas, use_dos, &d);
+            let free = h.w.free().unwrap_or(0);
+            if h.step_at(op, rng, free).starts_with("ABORT") { break; }
         }
-        vd.out.count("cpm3-protect-scenario");
+        h.dead = false;
+        h.vd.out.count("cpm3-protect-scenario");
     }
     // pre-soil: fill the free space once with non-zero data and delete it, so that free units hold stale bytes
     // (a structure that is linked but never written then shows up as garbage instead of zeros)
     if !slow_cfg(cfg) && rng.chance(45) {
-        if let Ok(free) = w.free() {
+        if let Ok(free) = h.w.free() {
             let overhead = match cfg.fs { Fs::Dos33 | Fs::Dos32 => 1 + free / 122, Fs::Prodos => if free > 256 { 2 + free / 256 } else { 1 }, Fs::Pascal => 0, _ => 0 };
             let n = free.saturating_sub(overhead + 1).max(1);
             let name = if cfg.fs.is_cpm() || cfg.fs == Fs::Fat { "SOIL.BIN" } else { "SOIL" };
-            let op = Op::Put { path: name.to_string(), nchunks: n, holes: false, last_len: w.chunk_len, ftype_sel: 1 };
-            w.lean_op = None; w.last_op = None; w.pas_op = None; w.dos_op = None;
-            let d1 = apply_op(&mut w, op, rng, free, &mut vd, &mut nontrivial);
-            canon.extend_from_slice(d1.as_bytes());
-            if !d1.starts_with("ABORT") { post_step(&mut w, &mut vd, &mut drv, &mut tie, use_lean, use_pas, use_dos, &d1); }
+            let op = Op::Put { path: name.to_string(), nchunks: n, holes: false, last_len: h.w.chunk_len, ftype_sel: 1, idx: None };
+            h.step_at(op, rng, free);
+            h.dead = false;
             let cp = canon_path(cfg.fs, name);
-            if w.files.contains_key(&cp) {
-                let f2 = w.free().unwrap_or(0);
-                w.lean_op = None; w.last_op = None; w.pas_op = None; w.dos_op = None;
-                let d2 = apply_op(&mut w, Op::Delete(cp), rng, f2, &mut vd, &mut nontrivial);
-                canon.extend_from_slice(d2.as_bytes());
-                if !d2.starts_with("ABORT") { post_step(&mut w, &mut vd, &mut drv, &mut tie, use_lean, use_pas, use_dos, &d2); }
+            if h.w.files.contains_key(&cp) {
+                let f2 = h.w.free().unwrap_or(0);
+                h.step_at(Op::Delete(cp), rng, f2);
+                h.dead = false;
             }
-            vd.out.count("pre-soil");
+            h.vd.out.count("pre-soil");
         }
     }
     // directory-pressure burst: many one-chunk files into one directory, sized to cross the directory's
@@ -627,7 +730,15 @@ fn one_history(ctx: &mut Ctx, focus: Focus, idx: usize, cfg: &VolCfg, steps: usi
     let mut burst_started = false;
     let total_steps = steps + burst.as_ref().map(|b| b.1 + 1).unwrap_or(0);
     for step in 0..total_steps {
-        let free = match w.free() { Ok(f) => f, Err(e) => { if e.contains(".rs:") { vd.panic(&e, "stat", &w.hist.clone()); } return; } };
+        let free = match h.free() { Some(f) => f, None => return };
+        let in_burst = matches!(burst.as_ref(), Some((_, left)) if *left > 0 && step >= 2);
+        // now and then (not inside a burst): save, save + reload, delete of a directory
+        if !in_burst && step > 0 {
+            if let Some(op) = extra_op(&h.w, &mut aux) {
+                if h.step_at(op, &mut aux, free).starts_with("ABORT") { break; }
+            }
+        }
+        let free = match h.free() { Some(f) => f, None => return };
         let op = match burst.as_mut() {
             Some((dir, left)) if *left > 0 && step >= 2 => {
                 if !dir.is_empty() && !burst_started { burst_started = true; Op::Mkdir(dir.clone()) }
@@ -639,69 +750,465 @@ fn one_history(ctx: &mut Ctx, focus: Focus, idx: usize, cfg: &VolCfg, steps: usi
                     let path = if dir.is_empty() { base } else { format!("{}/{}", dir, base) };
                     // now and then the entry that makes the directory grow is itself a directory
                     if cfg.fs.has_dirs() && rng.chance(12) { Op::Mkdir(path) }
-                    else { Op::Put { path, nchunks: 1, holes: false, last_len: rng.range(1, w.chunk_len.max(1)), ftype_sel: rng.below(64) } }
+                    else { Op::Put { path, nchunks: 1, holes: false, last_len: rng.range(1, h.w.chunk_len.max(1)), ftype_sel: rng.below(64), idx: None } }
                 }
             }
-            _ => choose_op(&mut w, rng, free, focus),
+            _ => choose_op(&mut h.w, rng, free, focus),
         };
-        w.lean_op = None; w.last_op = None;
-        w.pas_op = None;
-        w.dos_op = None;
-        let desc = apply_op(&mut w, op, rng, free, &mut vd, &mut nontrivial);
-        canon.extend_from_slice(desc.as_bytes());
-        if desc.starts_with("ABORT") { break; }
-        post_step(&mut w, &mut vd, &mut drv, &mut tie, use_lean, use_pas, use_dos, &desc);
+        if h.step_at(op, rng, free).starts_with("ABORT") { break; }
     }
     // pressure fill: use up the remaining free space so that any unit wrongly marked free (by an earlier,
     // possibly refused, operation) is handed out again and the damage becomes visible in the files; then free
     // some space in the middle of the volume and fill it again exactly (allocator wrap-around paths)
+    h.dead = false;
     if !slow_cfg(cfg) && rng.chance(if focus == Focus::C04 { 85 } else { 50 }) {
         let mut phase = 0; // 0 = first fill, 1 = refill after a delete
         let mut rounds = 0;
         loop {
             rounds += 1;
             if rounds > 12 { break; }
-            let free = match w.free() { Ok(f) => f, Err(_) => break };
+            let free = match h.w.free() { Ok(f) => f, Err(_) => break };
             let op = if free == 0 || (phase == 0 && rounds > 6) {
                 if phase == 1 { break; }
                 phase = 1;
-                let names: Vec<String> = w.files.iter().filter(|(_, r)| !r.locked).map(|(k, _)| k.clone()).collect();
+                let names: Vec<String> = h.w.files.iter().filter(|(_, r)| !r.locked).map(|(k, _)| k.clone()).collect();
                 if names.is_empty() { break; }
                 Op::Delete(names[rng.below(names.len())].clone())
             } else {
                 let overhead = match cfg.fs { Fs::Dos33 | Fs::Dos32 => 1 + free / 122, Fs::Prodos => if free > 256 { 2 + free / 256 } else if free > 1 { 1 } else { 0 }, _ => 0 };
                 let n = (if rounds % 3 == 1 && free > 8 { free / 2 } else { free.saturating_sub(overhead) }).max(1);
-                Op::Put { path: gen_name(cfg.fs, rng, &BTreeSet::new()), nchunks: n, holes: false, last_len: w.chunk_len, ftype_sel: rng.below(64) }
+                Op::Put { path: gen_name(cfg.fs, rng, &BTreeSet::new()), nchunks: n, holes: false, last_len: h.w.chunk_len, ftype_sel: rng.below(64), idx: None }
             };
-            w.lean_op = None; w.last_op = None; w.pas_op = None; w.dos_op = None;
-            let desc = apply_op(&mut w, op, rng, free, &mut vd, &mut nontrivial);
-            canon.extend_from_slice(desc.as_bytes());
+            let desc = h.step_at(op, rng, free);
             if desc.starts_with("ABORT") { break; }
-            post_step(&mut w, &mut vd, &mut drv, &mut tie, use_lean, use_pas, use_dos, &desc);
             if desc.contains("=> err") && desc.starts_with("put") {
                 if phase == 1 { break; }
                 phase = 1;
-                let names: Vec<String> = w.files.iter().filter(|(_, r)| !r.locked).map(|(k, _)| k.clone()).collect();
+                let names: Vec<String> = h.w.files.iter().filter(|(_, r)| !r.locked).map(|(k, _)| k.clone()).collect();
                 if names.is_empty() { break; }
-                let f0 = w.free().unwrap_or(0);
-                w.lean_op = None; w.last_op = None; w.pas_op = None; w.dos_op = None;
-                let d = apply_op(&mut w, Op::Delete(names[rng.below(names.len())].clone()), rng, f0, &mut vd, &mut nontrivial);
-                canon.extend_from_slice(d.as_bytes());
+                let f0 = h.w.free().unwrap_or(0);
+                let d = h.step_at(Op::Delete(names[rng.below(names.len())].clone()), rng, f0);
                 if d.starts_with("ABORT") { break; }
-                post_step(&mut w, &mut vd, &mut drv, &mut tie, use_lean, use_pas, use_dos, &d);
             }
         }
-        vd.out.count("pressure-fill");
+        h.vd.out.count("pressure-fill");
     }
-    // end of history: everything still reads back (C01), protected files are intact (C19), and the volume survives save/reload (C06)
-    check_all_files(&mut w, &mut vd, Focus::C01, "all-files-read-back");
-    check_all_files(&mut w, &mut vd, Focus::C19, "protected-files-intact");
-    check_all_files(&mut w, &mut vd, Focus::C02, "all-files-intact-at-end");
-    if focus == Focus::C06 { check_reload(&mut w, &mut vd, rng); }
-    if w.hist.len() >= 3 { nontrivial = nontrivial || w.files.len() >= 2; }
-    let sample = format!("idx={} cfg={} steps={} files={} history=[{}]", idx, cfgid, w.hist.len(), w.files.len(), w.hist.iter().take(12).cloned().collect::<Vec<_>>().join("; "));
-    ctx.out.sample(&sample);
-    ctx.out.case(&canon, nontrivial);
+    h.dead = false;
+    if let Some((canon, nontrivial, sample)) = h.finish(rng) {
+        ctx.out.sample(&sample);
+        ctx.out.case(&canon, nontrivial);
+    }
+}
+
+// ------------------------------------------------------------------------------------------
+// scripted scenario histories: a deterministic corpus of states the random generator rarely reaches.  Each one runs
+// through `Hist::step` like a generated history, so every oracle and the per-step Lean tie judge it.  The script fixes
+// the operations; the chunk contents come from the run's seed.  Milestones a script reaches are counted in the
+// distribution (`reach:<scenario>:<milestone>`), so the evidence shows that the state was really visited.
+
+/// case indices of the scripted scenarios (the random histories keep 0..n, so their indices do not move)
+pub const SCENARIO_IDX0: usize = 1_000_000;
+
+struct Scenario { name: &'static str, fs: Fs, container: &'static str, kind_name: &'static str, foci: &'static [Focus], thorough_only: bool, script: fn(&mut Hist, &mut Rng) }
+
+fn scenarios() -> Vec<Scenario> {
+    use Focus::*;
+    let sc = |name, fs, container, kind_name, foci, script| Scenario { name, fs, container, kind_name, foci, thorough_only: false, script };
+    vec![
+        // FAT sub-directory of three clusters (512-byte clusters: the 31st file), operations on entries of every cluster
+        sc("fat-subdir-3-clusters", Fs::Fat, "img", "ibm-ssdd-9", &[C01, C02, C04, C05, C19], sc_fat_subdir),
+        // the same with 1K clusters (the 63rd file)
+        sc("fat-subdir-3-clusters-1k", Fs::Fat, "img", "ibm-dsdd-9", &[C01, C03, C04], sc_fat_subdir),
+        // DOS 3.x data disk: only tracks 1-2 free while the last allocation was above the catalog track
+        sc("dos33-low-tracks", Fs::Dos33, "do", "a2-525-16", &[C01, C02, C04], sc_dos_low_tracks),
+        sc("dos32-low-tracks", Fs::Dos32, "d13", "a2-525-13", &[C03, C04], sc_dos_low_tracks),
+        // ProDOS volume with a two-block bitmap: allocation beyond block 4096, save / reload in mid-history
+        sc("prodos-bitmap-2-blocks", Fs::Prodos, "po", "a2-hd-4600", &[C01, C02, C04, C06], sc_prodos_bitmap2),
+        Scenario { name: "prodos-bitmap-16-blocks", fs: Fs::Prodos, container: "po", kind_name: "a2-hd-max", foci: &[C02, C06], thorough_only: true, script: sc_prodos_bitmap2 },
+        // ProDOS sparse tree files at exact fit and one block short
+        sc("prodos-sparse-exact-fit", Fs::Prodos, "po", "a2-525-16", &[C01, C02, C03, C04], sc_prodos_sparse_fit),
+        // ProDOS sub-directory of four blocks, operations on entries of every block, delete of the grown directory
+        sc("prodos-subdir-4-blocks", Fs::Prodos, "po", "a2-525-16", &[C02, C03, C04, C05, C19], sc_prodos_subdir),
+        // CP/M: files ending at / crossing logical and physical extent boundaries (EXM = 1), holes spanning whole extents,
+        // a two-extent file into the last two / the last directory slot
+        sc("cpm-extents-exm1", Fs::Cpm2, "imd", "kaypro4", &[C01, C02, C03, C05], sc_cpm_extents),
+        sc("cpm-extents-exm0", Fs::Cpm2, "do", "a2-525-16", &[C01, C04], sc_cpm_extents),
+        sc("cpm3-extents", Fs::Cpm3, "imd", "amstrad-ss", &[C03, C19], sc_cpm_extents),
+        // Pascal: contiguity on a full volume (exact gap, gap + 1, merged gaps, file ending on the last block)
+        sc("pascal-gaps", Fs::Pascal, "po", "a2-525-16", &[C01, C03, C04, C05], sc_pascal_gaps),
+        // ProDOS volumes whose size is a multiple of 4096 blocks (the bitmap ends exactly at a block boundary)
+        sc("prodos-4096-blocks", Fs::Prodos, "po", "a2-hd-4096", &[C02, C03, C04, C06], sc_prodos_full_bitmap_block),
+        sc("prodos-8192-blocks", Fs::Prodos, "po", "a2-hd-8192", &[C01, C02, C04, C06], sc_prodos_full_bitmap_block),
+        // sparse files whose first chunk is a hole
+        sc("dos33-no-first-chunk", Fs::Dos33, "do", "a2-525-16", &[C01, C03], sc_no_first_chunk),
+        sc("prodos-no-first-chunk", Fs::Prodos, "po", "a2-525-16", &[C01, C02, C04], sc_no_first_chunk),
+        sc("cpm-no-first-chunk", Fs::Cpm2, "imd", "kaypro4", &[C01, C03], sc_no_first_chunk),
+        // (append new scenarios here: the position in this list is the case index)
+    ]
+}
+
+fn scenario_cfg(sc: &Scenario) -> Option<VolCfg> {
+    for (n, name, flat) in [(4096u16, "a2-hd-4096", false), (4600, "a2-hd-4600", false), (8192, "a2-hd-8192", false)] {
+        if sc.kind_name == name { return Some(VolCfg { fs: Fs::Prodos, container: "po", kind: img::dsk_po::PO::create(n).kind(), kind_name: name, flat }); }
+    }
+    all_cfgs(true).into_iter().find(|c| c.fs == sc.fs && c.container == sc.container && c.kind_name == sc.kind_name)
+}
+
+fn run_scenarios(ctx: &mut Ctx, focus: Focus, drv: &mut Option<Drv>) {
+    let mut sampled = 0;
+    for (k, sc) in scenarios().iter().enumerate() {
+        let idx = SCENARIO_IDX0 + k;
+        if !ctx.out.wants(idx) { continue; }
+        // quick: the foci the scenario is aimed at; thorough: every scenario under every focus
+        // quick: under the foci the scenario is aimed at; thorough: every scenario under every focus (the slow
+        // thorough-only ones under their own foci)
+        if if ctx.tier_thorough { sc.thorough_only && !sc.foci.contains(&focus) } else { sc.thorough_only || !sc.foci.contains(&focus) } { continue; }
+        let cfg = match scenario_cfg(sc) { Some(c) => c, None => { ctx.out.count(&format!("scenario-no-cfg:{}", sc.name)); continue; } };
+        let mut rng = Rng::new(ctx.seed ^ 0x5C3A_A105u64 ^ ((k as u64) << 20));
+        let t0 = std::time::Instant::now();
+        let mut h = match Hist::open(&mut ctx.out, focus, idx, &cfg, drv.as_mut(), Vec::new()) { Some(h) => h, None => continue };
+        h.scenario = sc.name;
+        (sc.script)(&mut h, &mut rng);
+        let steps = h.w.hist.len() as u64;
+        let fin = h.finish(&mut rng);
+        ctx.out.count(&format!("scenario:{}", sc.name));
+        ctx.out.count_n(&format!("scenario-steps:{}", sc.name), steps);
+        if let Some((canon, nontrivial, sample)) = fin {
+            if sampled < 2 { sampled += 1; ctx.out.sample(&format!("scenario={} {}", sc.name, sample)); }
+            ctx.out.case(&canon, nontrivial);
+        }
+        if std::env::var("A2V_SCN_TIME").is_ok() { eprintln!("scenario {} focus {} steps {} {:.1}s", sc.name, focus.id(), steps, t0.elapsed().as_secs_f64()); }
+    }
+}
+
+/// allocation units a dense file of `n` chunks takes (the file system's own index overhead included)
+fn dense_units(fs: Fs, n: usize) -> usize {
+    match fs {
+        Fs::Dos33 | Fs::Dos32 => n + (n + 121) / 122,
+        Fs::Prodos => if n <= 1 { 1 } else if n <= 256 { n + 1 } else { n + (n + 255) / 256 + 1 },
+        _ => n,
+    }
+}
+
+/// script vocabulary: every call is one `step` (or none if the reference state does not allow it any more, e.g. on a
+/// tree where an earlier operation failed); the return value says whether the real call reported success
+impl<'a> Hist<'a> {
+    fn mark(&mut self, what: &str) { let k = format!("reach:{}:{}", self.scenario, what); self.vd.out.count(&k); }
+    fn skip(&mut self) -> bool { self.vd.out.count("scenario-step-skipped"); false }
+    fn done(d: &str) -> bool { d.ends_with("=> ok") }
+    fn free_now(&mut self) -> usize { self.w.free().unwrap_or(usize::MAX) }
+    fn cp(&self, p: &str) -> String { canon_path(self.w.fs(), p) }
+    pub fn put_len(&mut self, rng: &mut Rng, path: &str, n: usize, last_len: usize) -> bool {
+        let sel = rng.below(64);
+        Self::done(&self.step(Op::Put { path: path.to_string(), nchunks: n.max(1), holes: false, last_len, ftype_sel: sel, idx: None }, rng))
+    }
+    pub fn put(&mut self, rng: &mut Rng, path: &str, n: usize) -> bool { let l = self.w.chunk_len; self.put_len(rng, path, n, l) }
+    pub fn put_idx(&mut self, rng: &mut Rng, path: &str, idx: &[usize], last_len: usize) -> bool {
+        let sel = rng.below(64);
+        Self::done(&self.step(Op::Put { path: path.to_string(), nchunks: 0, holes: true, last_len, ftype_sel: sel, idx: Some(idx.to_vec()) }, rng))
+    }
+    pub fn del(&mut self, rng: &mut Rng, path: &str) -> bool { let cp = self.cp(path); if !self.w.files.contains_key(&cp) { return self.skip(); } Self::done(&self.step(Op::Delete(cp), rng)) }
+    pub fn rename(&mut self, rng: &mut Rng, path: &str, newbase: &str) -> bool { let cp = self.cp(path); if !self.w.files.contains_key(&cp) { return self.skip(); } Self::done(&self.step(Op::Rename(cp, newbase.to_string()), rng)) }
+    pub fn toggle_lock(&mut self, rng: &mut Rng, path: &str) -> bool { let cp = self.cp(path); if !self.w.files.contains_key(&cp) || !self.w.fs().has_lock() { return self.skip(); } Self::done(&self.step(Op::Lock(cp), rng)) }
+    pub fn retype(&mut self, rng: &mut Rng, path: &str, sel: usize) -> bool { let cp = self.cp(path); if !self.w.files.contains_key(&cp) { return self.skip(); } Self::done(&self.step(Op::Retype(cp, sel), rng)) }
+    pub fn mkdir(&mut self, rng: &mut Rng, path: &str) -> bool { Self::done(&self.step(Op::Mkdir(path.to_string()), rng)) }
+    pub fn rmdir(&mut self, rng: &mut Rng, path: &str) -> bool { let cp = self.cp(path); if !self.w.dirs.contains(&cp) { return self.skip(); } Self::done(&self.step(Op::DeleteDir(cp), rng)) }
+    pub fn raw_rewrite(&mut self, rng: &mut Rng, block: usize) -> bool { Self::done(&self.step(Op::RawRewrite(block), rng)) }
+    pub fn save(&mut self, rng: &mut Rng) -> bool { Self::done(&self.step(Op::Save, rng)) }
+    pub fn reload(&mut self, rng: &mut Rng, with_ext: bool) -> bool { Self::done(&self.step(Op::Reload(with_ext), rng)) }
+    fn files_under(&self, dir: &str) -> Vec<String> { let p = format!("{}/", dir); self.w.files.keys().filter(|k| k.starts_with(&p)).cloned().collect() }
+    /// dense filler files until exactly `target` units are free
+    pub fn fill_to(&mut self, rng: &mut Rng, target: usize, tag: &str) -> bool {
+        let fs = self.w.fs();
+        let ext = if fs.is_cpm() || fs == Fs::Fat { ".BIN" } else { "" };
+        for _ in 0..16 {
+            let free = match self.w.free() { Ok(f) => f, Err(_) => return false };
+            if free == target { return true; }
+            if free < target || self.dead { return false; }
+            let d = free - target;
+            let n = (1..=d).rev().find(|n| dense_units(fs, *n) <= d).unwrap_or(1);
+            let name = format!("{}{}{}", tag, self.w.hist.len(), ext);
+            if !self.put(rng, &name, n) { return false; }
+        }
+        false
+    }
+    /// ProDOS: the volume as another formatter leaves it.  The saved image of the freshly formatted volume must already
+    /// carry the volume bitmap the format prescribes (boot blocks, volume directory and the bitmap blocks used, every other
+    /// block of the volume free, no bit beyond the volume); the bitmap blocks are then set to exactly that (a no-op on a
+    /// correct tree) and the history goes on with the volume loaded from these bytes.
+    fn prodos_load_formatted(&mut self) {
+        let total = match guarded(|| self.w.disk.stat().map_err(|e| e.to_string())) { Ok(Ok(s)) => s.block_end, _ => { self.dead = true; return; } };
+        let mut bytes = match guarded(|| self.w.disk.get_img().to_bytes()) { Ok(b) => b, Err(_) => { self.dead = true; return; } };
+        if bytes.len() < total * 512 || total < 16 { self.dead = true; return; }
+        let first = bytes[2 * 512 + 0x27] as usize + 256 * bytes[2 * 512 + 0x28] as usize;
+        let nb = (total + 4095) / 4096;
+        let mut want = vec![0u8; nb * 512];
+        for b in 0..total { if b >= 6 && !(b >= first && b < first + nb) { want[b / 8] |= 1 << (7 - b % 8); } }
+        let same = first == 6 && bytes[first * 512..(first + nb) * 512] == want[..];
+        self.w.hist.push(format!("load the formatted volume ({} blocks, bitmap blocks {}..{}) => ok", total, first, first + nb - 1));
+        let hist = self.w.hist.clone();
+        let first_bad = (0..nb).find(|i| bytes[(first + i) * 512..(first + i + 1) * 512] != want[i * 512..(i + 1) * 512]);
+        for f in [Focus::C03, Focus::C04, Focus::C06] { self.vd.v(f, same, "fresh-volume-bitmap-on-disk", &format!("the saved image of the freshly formatted volume does not carry the prescribed bitmap (first differing bitmap block: {:?})", first_bad), &hist); }
+        if first == 6 { bytes[first * 512..(first + nb) * 512].copy_from_slice(&want); }
+        match guarded(|| a2kit::create_fs_from_bytestream(&bytes, Some("po")).map_err(|e| e.to_string())) {
+            Ok(Ok(d2)) => { self.w.disk = d2; self.mark("formatted-volume-loaded"); }
+            _ => { self.vd.out.count("scenario-load-failed"); self.dead = true; }
+        }
+    }
+}
+
+fn sc_fat_subdir(h: &mut Hist, rng: &mut Rng) {
+    let cl = h.w.chunk_len.max(32);
+    let per = cl / 32; // directory entries per cluster
+    h.mkdir(rng, "SUB");
+    let total = 2 * per + 8;
+    for i in 0..total { if !h.put_len(rng, &format!("SUB/F{:02}.DAT", i), 1, 1 + (i * 37) % cl) { break; } }
+    let n_in = h.files_under("SUB").len();
+    if n_in + 2 > per { h.mark("entries-in-cluster-2"); }
+    if n_in + 2 > 2 * per { h.mark("entries-in-cluster-3"); }
+    // entry index of F<i> is i + 2 (after `.` and `..`): lock + refused delete, rename, retype, delete in every cluster
+    for c in 0..3usize {
+        let base = if c == 0 { 1 } else { c * per - 2 + 1 };
+        let f = |k: usize| format!("SUB/F{:02}.DAT", base + k);
+        h.toggle_lock(rng, &f(0));
+        h.del(rng, &f(0));
+        h.rename(rng, &f(1), &format!("R{}.NEW", c));
+        h.retype(rng, &f(2), 0);
+        if h.del(rng, &f(3)) && c == 2 { h.mark("delete-in-cluster-3"); }
+        h.toggle_lock(rng, &f(0));
+        h.retype(rng, &f(2), 1);
+    }
+    // the freed slots of clusters 1, 2, 3 are taken again; a directory entry and a nested file at the end
+    for c in 0..3 { h.put(rng, &format!("SUB/N{}.NEW", c), 2); }
+    h.mkdir(rng, "SUB/DEEP");
+    h.put(rng, "SUB/DEEP/X.DAT", 3);
+    if !h.rmdir(rng, "SUB") { h.mark("nonempty-rmdir-refused"); }
+    if per <= 16 {
+        // empty the grown directory and delete it; its clusters are handed out again
+        h.del(rng, "SUB/DEEP/X.DAT");
+        h.rmdir(rng, "SUB/DEEP");
+        for n in h.files_under("SUB") { h.del(rng, &n); }
+        if h.rmdir(rng, "SUB") { h.mark("grown-directory-deleted"); }
+        h.mkdir(rng, "SUB2");
+        h.put(rng, "SUB2/A.DAT", 5);
+    }
+}
+
+fn sc_dos_low_tracks(h: &mut Hist, rng: &mut Rng) {
+    let fs = h.w.fs();
+    let spt = if fs == Fs::Dos33 { 16 } else { 13 };
+    // the dense file that takes exactly `total` sectors, T/S list sectors included
+    let fit = |total: usize| (1..=total).rev().find(|n| dense_units(fs, *n) == total).unwrap_or(1);
+    let (up, mid, low) = (fit(17 * spt), fit(14 * spt), fit(2 * spt));
+    // tracks above the catalog, tracks 16..3, tracks 2..1
+    h.put(rng, "UP", up); h.put(rng, "MID", mid); h.put(rng, "LOW", low);
+    if h.free_now() == 0 { h.mark("full-after-wrap-below-catalog"); }
+    h.del(rng, "UP");
+    h.put(rng, "UP2", up);
+    if h.free_now() == 0 { h.mark("refilled-high-tracks"); }
+    h.del(rng, "LOW");
+    if h.free_now() == 2 * spt { h.mark("only-low-tracks-free"); }
+    if h.put(rng, "TINY", 1) { h.mark("put-into-tracks-1-2"); }
+    h.put(rng, "REST", fit(2 * spt - 2));
+    if h.free_now() == 0 { h.mark("exact-refill"); }
+    h.put(rng, "NOROOM", 1);
+    h.del(rng, "TINY"); h.del(rng, "MID");
+    h.put(rng, "MID2", mid);
+    h.del(rng, "REST"); h.del(rng, "UP2");
+    if h.fill_to(rng, 0, "FILL") { h.mark("filled-to-zero-again"); }
+}
+
+fn sc_prodos_bitmap2(h: &mut Hist, rng: &mut Rng) {
+    h.prodos_load_formatted();
+    if h.dead { return; }
+    let total = match guarded(|| h.w.disk.stat().map_err(|e| e.to_string())) { Ok(Ok(s)) => s.block_end, _ => return };
+    let used0 = total.saturating_sub(h.free_now());
+    // a file that runs from the first free block to beyond block 4096 (bits in the second bitmap block), small ones behind it
+    let n_big = 4096usize.saturating_sub(used0) + 100;
+    h.put(rng, "BIG", n_big);
+    h.put_len(rng, "KEEP", 3, 100);
+    if total.saturating_sub(h.free_now()) > 4096 + 16 { h.mark("allocated-beyond-block-4096"); }
+    h.save(rng);
+    h.put(rng, "NEW1", 3);
+    if h.reload(rng, true) { h.mark("reloaded-in-mid-history"); }
+    h.put(rng, "NEW2", 40);
+    h.save(rng);
+    // block-level rewrite (trait `read_block` / `write_block`) of the second and of the first bitmap block, each right after
+    // a save.  (While the bitmap buffer is ahead of the image a raw write to one bitmap block drops what the buffer holds
+    // for the other one: observed, outside the properties - design/FS.md section 5; `A2V_RAW_DIRTY=1` leaves out the save
+    // before the second rewrite and shows it.)
+    h.raw_rewrite(rng, 7);
+    h.put_len(rng, "NEW3", 2, 9);
+    if std::env::var("A2V_RAW_DIRTY").is_err() { h.save(rng); }
+    h.raw_rewrite(rng, 6);
+    h.put_len(rng, "NEW4", 2, 9);
+    h.save(rng);
+    h.save(rng);
+    // free and re-use blocks of the second bitmap block
+    h.del(rng, "NEW1"); h.del(rng, "NEW2");
+    h.save(rng);
+    h.put(rng, "MID", 60);
+    h.reload(rng, false);
+    h.del(rng, "KEEP");
+    h.put_idx(rng, "SPARSE", &[0, 300, 5000], 17);
+    // (the put of a2kit costs chunks x volume size: the exact fill only where what is left is small)
+    if h.free_now() < 3000 { if h.fill_to(rng, 0, "FILL") { h.mark("filled-to-zero"); } h.put(rng, "NOROOM", 1); }
+    h.save(rng);
+    h.del(rng, "MID");
+    h.reload(rng, true);
+    h.put(rng, "LAST", 30);
+    h.del(rng, "BIG");
+    h.save(rng);
+    h.put(rng, "LOW", 300);
+}
+
+/// a volume another formatter made, first allocations right behind the bitmap, save / reload in mid-history
+fn sc_prodos_full_bitmap_block(h: &mut Hist, rng: &mut Rng) {
+    h.prodos_load_formatted();
+    if h.dead { return; }
+    h.put_len(rng, "A", 3, 100);
+    h.put(rng, "B", 20);
+    h.save(rng);
+    h.put_len(rng, "C", 5, 1);
+    if h.reload(rng, true) { h.mark("reloaded-in-mid-history"); }
+    h.mkdir(rng, "D");
+    h.put(rng, "D/E", 2);
+    h.del(rng, "A");
+    h.save(rng);
+    h.put(rng, "F", 258);
+    h.reload(rng, false);
+    h.del(rng, "B");
+    h.put_idx(rng, "G", &[0, 513], 40);
+    h.del(rng, "F");
+    h.save(rng);
+}
+
+/// sparse files that begin with a hole: only high indices, one or two chunks, the boundary of the first index structure
+fn sc_no_first_chunk(h: &mut Hist, rng: &mut Rng) {
+    let fs = h.w.fs();
+    let ext = if fs.is_cpm() || fs == Fs::Fat { ".BIN" } else { "" };
+    let edge = match fs { Fs::Dos33 | Fs::Dos32 => 122, Fs::Prodos => 256, _ => 16 };
+    let pats: Vec<Vec<usize>> = vec![vec![1], vec![2], vec![1, 2], vec![300], vec![edge - 1], vec![edge], vec![edge, edge + 1], vec![1, edge + 5]];
+    h.put(rng, &format!("KEEP{}", ext), 3);
+    for (k, idx) in pats.iter().enumerate() {
+        let name = format!("H{}{}", k, ext);
+        if h.put_idx(rng, &name, idx, 1 + (k * 61) % 128) { h.mark("stored-without-first-chunk"); }
+        if k % 2 == 0 { h.rename(rng, &name, &format!("R{}{}", k, ext)); }
+    }
+    h.save(rng);
+    let names: Vec<String> = h.w.files.keys().filter(|n| !n.starts_with("KEEP")).cloned().collect();
+    for n in names { h.del(rng, &n); }
+}
+
+fn sc_prodos_sparse_fit(h: &mut Hist, rng: &mut Rng) {
+    let pats: Vec<(&str, Vec<usize>)> = vec![
+        ("DENSE257", (0..257).collect()),
+        ("SP300.700", vec![0, 300, 700]),
+        ("SP255.257", vec![0, 255, 256, 257]),
+        ("SP513", vec![0, 513]),
+        ("SP700", vec![0, 700]),
+        ("SPMAX", vec![0, 32767]),
+        ("NOFIRST300", vec![300]),
+        ("NOFIRST1", vec![1]),
+    ];
+    for (k, (name, idx)) in pats.iter().enumerate() {
+        // data blocks + one index block per group of 256 indices that holds data + the master index block
+        let end = idx.iter().max().map(|m| m + 1).unwrap_or(1);
+        let groups: BTreeSet<usize> = idx.iter().map(|i| i / 256).filter(|g| *g > 0).collect();
+        let need = if end <= 256 { idx.len() + 1 } else { idx.len() + 1 + groups.len() + 1 };
+        if !h.fill_to(rng, need, "PAD") { h.mark("fill-failed"); return; }
+        if h.put_idx(rng, name, idx, 300) { if h.free_now() == 0 { h.mark("exact-fit-accepted"); } h.del(rng, name); }
+        // one block short: refused, and nothing changes
+        let one = format!("ONE{}", k);
+        h.put_len(rng, &one, 1, 9);
+        if h.put_idx(rng, name, idx, 300) { h.del(rng, name); } else { h.mark("one-short-refused"); }
+        h.del(rng, &one);
+    }
+}
+
+fn sc_prodos_subdir(h: &mut Hist, rng: &mut Rng) {
+    h.mkdir(rng, "D");
+    for i in 0..40usize { if !h.put_len(rng, &format!("D/F{:02}", i), 1, 1 + (i * 29) % 512) { break; } }
+    if h.files_under("D").len() >= 39 { h.mark("directory-of-4-blocks"); }
+    // the key block holds 12 entries, every further block 13: lock + refused delete, rename, retype, delete in every block
+    for (b, base) in [0usize, 12, 25, 38].iter().enumerate() {
+        let f = |k: usize| format!("D/F{:02}", (base + k).min(39));
+        h.toggle_lock(rng, &f(0));
+        h.del(rng, &f(0));
+        h.rename(rng, &f(1), &format!("R{}", b));
+        if b < 3 { h.retype(rng, &f(2), b); h.del(rng, &f(3)); }
+        h.toggle_lock(rng, &f(0));
+    }
+    for b in 0..3 { h.put(rng, &format!("D/NEW{}", b), 2); }
+    h.mkdir(rng, "D/SUB");
+    h.put(rng, "D/SUB/X", 3);
+    if !h.rmdir(rng, "D") { h.mark("nonempty-rmdir-refused"); }
+    h.del(rng, "D/SUB/X");
+    h.rmdir(rng, "D/SUB");
+    for n in h.files_under("D") { h.del(rng, &n); }
+    if h.rmdir(rng, "D") { h.mark("grown-directory-deleted"); }
+    h.put(rng, "AFTER", 20);
+    h.mkdir(rng, "E");
+    h.put(rng, "E/Y", 2);
+}
+
+fn sc_cpm_extents(h: &mut Hist, rng: &mut Rng) {
+    let d = dpb::DiskParameterBlock::create(&h.w.cfg.kind);
+    let bls = h.w.chunk_len.max(128);
+    let ppe = if d.dsm < 256 { 16 } else { 8 }; // blocks per directory entry (physical extent)
+    let lx = (16384 / bls).max(1);              // blocks per logical extent (16K)
+    h.put(rng, "A.BIN", ppe);
+    h.put(rng, "B.BIN", ppe + 1);
+    h.put(rng, "C.BIN", lx);
+    h.put_len(rng, "D.BIN", lx + 1, 1);
+    // holes that span the rest of a logical extent, a whole physical extent, and the boundary itself
+    h.put_idx(rng, "E.BIN", &[0, lx], 100);
+    h.put_idx(rng, "F.BIN", &[0, ppe], 128);
+    h.put_idx(rng, "G.BIN", &[0, 2 * ppe + 1], 77);
+    h.put_idx(rng, "H.BIN", &[0, lx - 1, lx, 3 * ppe - 1], bls);
+    if d.exm > 0 { h.mark("logical-extent-boundaries-exm>0"); } else { h.mark("extent-boundaries-exm0"); }
+    h.toggle_lock(rng, "A.BIN");
+    h.del(rng, "A.BIN");
+    h.rename(rng, "B.BIN", "B2.BIN");
+    h.retype(rng, "C.BIN", 0);
+    h.toggle_lock(rng, "A.BIN");
+    let names: Vec<String> = h.w.files.keys().cloned().collect();
+    for n in names { h.del(rng, &n); }
+    // the directory: one-block files until two entries are left, then a file that needs two entries
+    let slots = d.drm as usize + 1;
+    let mut placed = 0;
+    for i in 0..slots.saturating_sub(2) { if !h.put_len(rng, &format!("S{:03}.X", i), 1, 1 + i % 128) { break; } placed += 1; }
+    if placed + 2 == slots {
+        if h.put(rng, "M.BIN", ppe + 1) {
+            h.mark("two-entry-file-into-last-two-slots");
+            h.del(rng, "M.BIN");
+            h.put_len(rng, "Z.X", 1, 5);
+            if !h.put(rng, "M.BIN", ppe + 1) { h.mark("two-entry-file-refused-with-one-slot"); }
+            h.put(rng, "N.BIN", ppe);
+            if !h.put_len(rng, "Y.X", 1, 5) { h.mark("directory-full"); }
+        }
+    } else { h.mark("directory-full-early"); }
+}
+
+fn sc_pascal_gaps(h: &mut Hist, rng: &mut Rng) {
+    h.put(rng, "A", 60); h.put(rng, "B", 60); h.put(rng, "C", 60);
+    let rest = h.free_now();
+    if rest == usize::MAX || rest == 0 { return; }
+    // the last file ends on the last block of the volume
+    h.put_len(rng, "D", rest, 1);
+    if h.free_now() == 0 { h.mark("full-last-block-used"); }
+    h.del(rng, "B");
+    if !h.put(rng, "E", 61) { h.mark("gap+1-refused"); }
+    if h.put(rng, "E", 60) { h.mark("exact-gap-accepted"); }
+    h.del(rng, "A"); h.del(rng, "E");
+    if h.put(rng, "F", 120) { h.mark("merged-gap-accepted"); }
+    h.del(rng, "D");
+    if h.put(rng, "G", rest) { h.mark("tail-refilled"); }
+    h.put(rng, "X", 1);
+    h.del(rng, "C");
+    h.put(rng, "H", 59); h.put_len(rng, "I", 1, 300);
+    h.rename(rng, "H", "H2");
+    h.retype(rng, "I", 1);
 }
 
 fn slow_cfg(cfg: &VolCfg) -> bool { matches!(cfg.container, "woz1" | "woz2" | "nib" | "2mg-nib") || cfg.kind == names::A2_HD_MAX }
@@ -727,7 +1234,7 @@ fn choose_op(w: &mut World, rng: &mut Rng, free: usize, focus: Focus) -> Op {
             path = if u == 0 { base } else { format!("{}:{}", u, base) };
         }
         let holes = fs.has_holes() && rng.chance(25) && n > 2;
-        return Op::Put { path, nchunks: n, holes, last_len: if rng.chance(40) { w.chunk_len } else { rng.range(1, w.chunk_len.max(1)) }, ftype_sel: rng.below(64) };
+        return Op::Put { path, nchunks: n, holes, last_len: if rng.chance(40) { w.chunk_len } else { rng.range(1, w.chunk_len.max(1)) }, ftype_sel: rng.below(64), idx: None };
     }
     if r < 52 { return Op::Delete(pick(rng)); }
     if r < 62 { let p = pick(rng); let base = gen_name(fs, rng, &BTreeSet::new()); return Op::Rename(p, base); }
@@ -773,16 +1280,24 @@ fn hist_len_even(w: &World) -> bool { w.hist.len() % 2 == 0 }
 fn parent_of(p: &str) -> Option<String> { p.rfind('/').map(|i| p[..i].to_string()) }
 fn base_of(p: &str) -> String { match p.rfind('/') { Some(i) => p[i + 1..].to_string(), None => p.to_string() } }
 
-fn build_fimg(w: &mut World, path: &str, nchunks: usize, holes: bool, last_len: usize, ftype_sel: usize, rng: &mut Rng) -> Result<(FileImage, RefFile), String> {
+fn build_fimg(w: &mut World, path: &str, nchunks: usize, holes: bool, last_len: usize, ftype_sel: usize, rng: &mut Rng, idx: Option<&[usize]>) -> Result<(FileImage, RefFile), String> {
     let fs = w.fs();
     let mut fimg = guarded(|| w.disk.new_fimg(None, true, path).map_err(|e| e.to_string()))??;
     let cl = fimg.chunk_len;
     let mut chunks = BTreeMap::new();
-    for i in 0..nchunks {
-        let keep = !holes || i == 0 || i + 1 == nchunks || rng.chance(55);
-        if keep {
-            let len = if i + 1 == nchunks { last_len.min(cl).max(1) } else { cl };
-            chunks.insert(i, gen_chunk(rng, len));
+    let nchunks = match idx { Some(ix) => ix.iter().max().map(|m| m + 1).unwrap_or(1), None => nchunks };
+    if let Some(ix) = idx {
+        // scripted sparse pattern: exactly these chunk indices
+        for i in ix { let len = if i + 1 == nchunks { last_len.min(cl).max(1) } else { cl }; chunks.insert(*i, gen_chunk(rng, len)); }
+    } else {
+        // a sparse file need not have its first chunk (the hole is then at the start of the file)
+        let drop0 = holes && nchunks > 1 && rng.chance(30);
+        for i in 0..nchunks {
+            let keep = !holes || (i == 0 && !drop0) || i + 1 == nchunks || (i > 0 && rng.chance(55));
+            if keep {
+                let len = if i + 1 == nchunks { last_len.min(cl).max(1) } else { cl };
+                chunks.insert(i, gen_chunk(rng, len));
+            }
         }
     }
     let eof = (nchunks - 1) * cl + chunks[&(nchunks - 1)].len();
@@ -802,7 +1317,10 @@ fn need_units(w: &World, r: &RefFile) -> usize {
     let end = r.chunks.keys().max().map(|m| m + 1).unwrap_or(0);
     match w.fs() {
         Fs::Dos33 | Fs::Dos32 => n + (end + 121) / 122,
-        Fs::Prodos => { if end <= 1 { 1 } else if end <= 256 { n + 1 } else { let idx: BTreeSet<usize> = r.chunks.keys().map(|k| k / 256).collect(); n + idx.len().max(1) + 1 } }
+        // data blocks; the index block of the first 256 indices as soon as the file is longer than one block (it is
+        // allocated whether or not it points to data); for a tree file the master index block and one index block for every
+        // further group of 256 indices that holds data
+        Fs::Prodos => { if end <= 1 { 1 } else if end <= 256 { n + 1 } else { let idx: BTreeSet<usize> = r.chunks.keys().map(|k| k / 256).filter(|g| *g > 0).collect(); n + 1 + idx.len() + 1 } }
         Fs::Pascal => end,
         // the chunk is the allocation block / cluster; CP/M extents and FAT directory slots are counted separately by a2kit
         Fs::Cpm2 | Fs::Cpm3 => n,
@@ -813,8 +1331,9 @@ fn need_units(w: &World, r: &RefFile) -> usize {
 fn apply_op(w: &mut World, op: Op, rng: &mut Rng, free: usize, vd: &mut Verdicts, nontrivial: &mut bool) -> String {
     let fs = w.fs();
     match op {
-        Op::Put { path, nchunks, holes, last_len, ftype_sel } => {
-            let (fimg, r) = match build_fimg(w, &path, nchunks, holes, last_len, ftype_sel, rng) {
+        Op::Put { path, nchunks, holes, last_len, ftype_sel, idx } => {
+            let holes = holes || idx.is_some();
+            let (fimg, r) = match build_fimg(w, &path, nchunks, holes, last_len, ftype_sel, rng, idx.as_deref()) {
                 Ok(x) => x,
                 Err(e) => { let d = format!("put {} n={} => new_fimg:{}", path, nchunks, err_class(&e)); if e.contains(".rs:") { vd.panic(&e, "new_fimg", &w.hist.clone()); } w.hist.push(d.clone()); return d; }
             };
@@ -870,6 +1389,14 @@ fn apply_op(w: &mut World, op: Op, rng: &mut Rng, free: usize, vd: &mut Verdicts
                     // refusal (reported as DISK FULL) is correct however much room there is
                     let end_idx = r.chunks.keys().max().map(|m| m + 1).unwrap_or(0);
                     let representable = match fs { Fs::Prodos => end_idx <= 32768 && r.eof < (1 << 24), _ => true };
+                    // a file that fits is "accepted rather than rejected or crashing": a refusal with a device-level error (the
+                    // write-back ran into a sector that does not exist, ...) is as much a rejection as DISK FULL
+                    let el = e.to_lowercase();
+                    let device_error = el.contains("unable to access") || el.contains("i/o error") || el.contains("failed to complete read or write");
+                    if !dup && need != usize::MAX && device_error && slot && representable {
+                        let grow = if fs.has_dirs() && cp.contains('/') { 1 } else { 0 };
+                        if fs != Fs::Pascal && need + grow <= free { vd.v(Focus::C04, false, "fits-is-accepted", &format!("need={} free={} refused with a device error: {}", need, free, e), &w.hist.clone()); }
+                    }
                     if !dup && need != usize::MAX && cls == "full" && slot && representable {
                         // a full sub-directory has to grow by one unit first: that is part of the file system's own overhead
                         let grow = if fs.has_dirs() && cp.contains('/') { 1 } else { 0 };
@@ -888,7 +1415,7 @@ fn apply_op(w: &mut World, op: Op, rng: &mut Rng, free: usize, vd: &mut Verdicts
             let mut pas_args = None;
             let mut dos_args = None;
             let mut dup_fimg: Option<FileImage> = None;
-            let res = match build_fimg(w, &sp, 1, false, 7, 1, rng) { Ok((f, _)) => { pas_args = Some((f.get_ftype(), f.get_eof())); dos_args = Some(hx(&f.fs_type)); dup_fimg = Some(clone_fimg(&f)); guarded(|| w.disk.put(&f).map_err(|e| e.to_string())) }, Err(e) => Ok(Err(e)) };
+            let res = match build_fimg(w, &sp, 1, false, 7, 1, rng, None) { Ok((f, _)) => { pas_args = Some((f.get_ftype(), f.get_eof())); dos_args = Some(hx(&f.fs_type)); dup_fimg = Some(clone_fimg(&f)); guarded(|| w.disk.put(&f).map_err(|e| e.to_string())) }, Err(e) => Ok(Err(e)) };
             let d = format!("put-dup {} => {}", sp, match &res { Ok(Ok(_)) => "ok".to_string(), Ok(Err(e)) => format!("err:{}", err_class(e)), Err(_) => "PANIC".to_string() });
             w.hist.push(d.clone());
             w.lean_op = Some(format!("put {} {} 0 0 0 -", hxs(&cp), res_tok(&res)));
@@ -994,7 +1521,8 @@ fn apply_op(w: &mut World, op: Op, rng: &mut Rng, free: usize, vd: &mut Verdicts
                 Fs::Prodos => ([ "txt", "bin", "atok", "sys" ][sel % 4].to_string(), format!("{}", sel * 97 % 65536)),
                 Fs::Pascal => ([ "txt", "bin", "pcode" ][sel % 3].to_string(), String::new()),
                 Fs::Cpm2 | Fs::Cpm3 => ([ "sys", "dir", "txt" ][sel % 3].to_string(), String::new()),
-                _ => ("txt".to_string(), String::new()),
+                // FAT: system attribute on / off ("txt" is not a FAT type: refused)
+                Fs::Fat => ([ "sys", "reg", "txt" ][sel % 3].to_string(), String::new()),
             };
             let locked = w.files[&cp].locked;
             let res = guarded(|| w.disk.retype(&cp, &typ, &sub).map_err(|e| e.to_string()));
@@ -1060,6 +1588,69 @@ fn apply_op(w: &mut World, op: Op, rng: &mut Rng, free: usize, vd: &mut Verdicts
                 Ok(Ok(_)) => { for f in [Focus::C01, Focus::C02] { vd.v(f, false, "unrecordable-put-refused", &format!("put of a file image that cannot be recorded was accepted: {}", d), &w.hist.clone()); } return format!("ABORT {}", d); }
                 Ok(Err(_)) => { for f in [Focus::C01, Focus::C02] { vd.v(f, true, "unrecordable-put-refused", "", &[]); } }
             }
+            d
+        }
+        Op::DeleteDir(cp) => {
+            // the directory branch of `delete`: an empty directory goes away and gives its blocks back, a directory that
+            // still has entries is refused and nothing changes (C02, C05; the per-step spec and the byte-exact models see both)
+            let prefix = format!("{}/", cp);
+            let nonempty = w.files.keys().any(|k| k.starts_with(&prefix)) || w.dirs.iter().any(|k| k.starts_with(&prefix));
+            let sp = spell(fs, &cp, rng);
+            let res = guarded(|| w.disk.delete(&sp).map_err(|e| e.to_string()));
+            let d = format!("delete-dir {}{} => {}", sp, if nonempty { "(non-empty)" } else { "" }, match &res { Ok(Ok(_)) => "ok".to_string(), Ok(Err(e)) => format!("err:{}", err_class(e)), Err(_) => "PANIC".to_string() });
+            w.hist.push(d.clone());
+            w.lean_op = Some(format!("delete {} {}", hxs(&cp), res_tok(&res)));
+            w.last_op = Some(OpRecord::new("delete", &sp, &cp, "", "", &res));
+            match res {
+                Err(p) => { vd.panic(&p, "delete", &w.hist.clone()); return format!("ABORT {}", d); }
+                Ok(Ok(_)) => {
+                    if nonempty {
+                        for f in [Focus::C02, Focus::C05] { vd.v(f, false, "nonempty-directory-delete-refused", &format!("directory {} still has entries and was deleted", cp), &w.hist.clone()); }
+                        return format!("ABORT {}", d);
+                    }
+                    w.dirs.remove(&cp);
+                    // at least the key block / first cluster comes back (a grown directory gives back more; the reader's
+                    // accounting oracle `free-equals-unreachable` checks the exact number)
+                    if let Ok(f2) = w.free() { vd.v(Focus::C04, f2 > free, "delete-restores-free", &format!("free {}->{} after deleting directory {}", free, f2, cp), &w.hist.clone()); }
+                    vd.out.count("delete-dir:ok");
+                }
+                Ok(Err(e)) => {
+                    if nonempty { for f in [Focus::C02, Focus::C05] { vd.v(f, true, "nonempty-directory-delete-refused", "", &[]); } vd.out.count("delete-dir:refused-nonempty"); }
+                    else { vd.v(Focus::C05, false, "delete-existing-succeeds", &format!("delete of empty directory {} refused: {}", cp, e), &w.hist.clone()); }
+                }
+            }
+            d
+        }
+        Op::Save => {
+            // C06: handing out the image flushes the write-back buffers; the live volume must be the same afterwards
+            let before = (w.free(), guarded(|| w.disk.tree(true, None).map_err(|e| e.to_string())));
+            let res = guarded(|| w.disk.get_img().to_bytes().len());
+            let after = (w.free(), guarded(|| w.disk.tree(true, None).map_err(|e| e.to_string())));
+            let d = format!("save => {}", match &res { Ok(_) => "ok", Err(_) => "PANIC" });
+            w.hist.push(d.clone());
+            w.lean_op = Some("other ok".to_string());
+            if let Err(p) = res { vd.panic(&p, "to_bytes", &w.hist.clone()); return format!("ABORT {}", d); }
+            let same = before == after;
+            let detail = if same { String::new() } else { format!("free {:?} -> {:?}, tree {}", before.0, after.0, if before.1 == after.1 { "unchanged" } else { "changed" }) };
+            for f in [Focus::C06, Focus::C04] { vd.v(f, same, "save-keeps-live-volume", &detail, &w.hist.clone()); }
+            vd.out.count("op:save");
+            d
+        }
+        Op::Reload(with_ext) => reload_op(w, with_ext, vd),
+        Op::RawRewrite(n) => {
+            // `read_block` / `write_block` of the trait (what `a2kit get/put -t block` use): writing back what was read is
+            // not a change, whichever block it is (a bitmap block goes through the write-back buffer)
+            let before = (w.free(), guarded(|| w.disk.tree(true, None).map_err(|e| e.to_string())));
+            let res = guarded(|| -> Result<usize, String> { let d = w.disk.read_block(&n.to_string()).map_err(|e| e.to_string())?; w.disk.write_block(&n.to_string(), &d).map_err(|e| e.to_string()) });
+            let after = (w.free(), guarded(|| w.disk.tree(true, None).map_err(|e| e.to_string())));
+            let d = format!("raw-rewrite block {} => {}", n, match &res { Ok(Ok(_)) => "ok".to_string(), Ok(Err(e)) => format!("err:{}", err_class(e)), Err(_) => "PANIC".to_string() });
+            w.hist.push(d.clone());
+            w.lean_op = Some(format!("other {}", res_tok(&res)));
+            if let Err(p) = res { vd.panic(&p, "write_block", &w.hist.clone()); return format!("ABORT {}", d); }
+            let same = before == after;
+            let detail = if same { String::new() } else { format!("free {:?} -> {:?}, tree {}", before.0, after.0, if before.1 == after.1 { "unchanged" } else { "changed" }) };
+            for f in [Focus::C02, Focus::C04, Focus::C06] { vd.v(f, same, "raw-rewrite-changes-nothing", &detail, &w.hist.clone()); }
+            vd.out.count("op:raw-rewrite");
             d
         }
         Op::GetMissing(p) => {
@@ -1199,6 +1790,64 @@ fn check_listing(w: &mut World, vd: &mut Verdicts) {
     }
 }
 
+/// C06 in the middle of a history: save, load the bytes again and go on with the re-loaded object.  What is compared
+/// is what `check_reload` compares at the end (file system, free count, block count, tree with metadata, chunk length);
+/// the files themselves are compared by the oracles of the following steps, which now run on the re-loaded volume.
+/// If the re-loaded volume is not the same volume the history goes on with the old object (also on CP/M 2.2, see below).
+fn reload_op(w: &mut World, with_ext: bool, vd: &mut Verdicts) -> String {
+    let label = if with_ext { "with-ext" } else { "no-ext" };
+    let oracle = format!("reload-{}", label);
+    let st0 = guarded(|| w.disk.stat().map_err(|e| e.to_string()));
+    let tree0 = guarded(|| w.disk.tree(true, None).map_err(|e| e.to_string()));
+    let typ0 = w.disk.get_img().what_am_i();
+    let exts = w.disk.get_img().file_extensions();
+    let bytes = match guarded(|| w.disk.get_img().to_bytes()) { Ok(b) => b, Err(p) => { let d = format!("reload({}) => PANIC", label); w.hist.push(d.clone()); vd.panic(&p, "to_bytes", &w.hist.clone()); return format!("ABORT {}", d); } };
+    let hint = if with_ext { exts.first().cloned() } else { None };
+    let res = guarded(|| a2kit::create_fs_from_bytestream(&bytes, hint.as_deref()).map_err(|e| e.to_string()));
+    w.lean_op = Some("other ok".to_string());
+    let mut diff: Option<String> = None;
+    let mut fresh: Option<Box<dyn DiskFS>> = None;
+    match res {
+        Err(p) => { let d = format!("reload({}) => PANIC", label); w.hist.push(d.clone()); vd.panic(&p, "create_fs_from_bytestream", &w.hist.clone()); return format!("ABORT {}", d); }
+        Ok(Err(e)) => diff = Some(format!("not recognised: {}", e)),
+        Ok(Ok(mut d2)) => {
+            match (guarded(|| d2.stat().map_err(|e| e.to_string())), &st0) {
+                (Ok(Ok(st)), Ok(Ok(s0))) => {
+                    if st.fs_name != s0.fs_name { diff = Some(format!("fs {} vs {}", st.fs_name, s0.fs_name)); }
+                    else if st.free_blocks != s0.free_blocks { diff = Some(format!("free {} vs {}", st.free_blocks, s0.free_blocks)); }
+                    else if st.block_end != s0.block_end { diff = Some(format!("block_end {} vs {}", st.block_end, s0.block_end)); }
+                    else if st.block_size != s0.block_size { diff = Some(format!("block_size {} vs {}", st.block_size, s0.block_size)); }
+                }
+                (Ok(Err(e)), _) => diff = Some(format!("stat failed {}", e)),
+                (Err(p), _) => { let d = format!("reload({}) => PANIC", label); w.hist.push(d.clone()); vd.panic(&p, "stat", &w.hist.clone()); return format!("ABORT {}", d); }
+                _ => diff = Some("stat of the live volume failed".to_string()),
+            }
+            if diff.is_none() && d2.get_img().what_am_i() != typ0 { diff = Some(format!("image type {} vs {}", d2.get_img().what_am_i(), typ0)); }
+            if diff.is_none() {
+                let t2 = guarded(|| d2.tree(true, None).map_err(|e| e.to_string()));
+                if let (Ok(Ok(a)), Ok(Ok(b))) = (&tree0, &t2) { if a != b { diff = Some("tree differs".to_string()); } }
+            }
+            if diff.is_none() {
+                let name = if w.fs().is_cpm() || w.fs() == Fs::Fat { "A.TXT" } else { "A" };
+                if let Ok(Ok(f)) = guarded(|| d2.new_fimg(None, false, name).map_err(|e| e.to_string())) { if f.chunk_len != w.chunk_len { diff = Some(format!("chunk length {} vs {} after reload (different disk parameters chosen)", f.chunk_len, w.chunk_len)); } }
+            }
+            fresh = Some(d2);
+        }
+    }
+    let d = format!("reload({}) => {}", label, match &diff { None => "ok".to_string(), Some(_) => "kept-old-object".to_string() });
+    w.hist.push(d.clone());
+    match diff {
+        None => {
+            // a2kit loads every CP/M volume as CP/M 3 (exact lengths in the directory from then on): a volume made as CP/M 2.2
+            // is compared, but the history goes on with the CP/M 2.2 object so that one length rule holds for all of it
+            if w.fs() == Fs::Cpm2 { vd.out.count("op:reload-compared-only"); } else { w.disk = fresh.unwrap(); vd.out.count("op:reload"); }
+            vd.v(Focus::C06, true, &oracle, "", &[]);
+        }
+        Some(dd) => { vd.v(Focus::C06, false, &oracle, &format!("mid-history: {}", dd), &w.hist.clone()); vd.out.count("op:reload-differs"); }
+    }
+    d
+}
+
 fn check_reload(w: &mut World, vd: &mut Verdicts, rng: &mut Rng) {
     let st0 = match guarded(|| w.disk.stat().map_err(|e| e.to_string())) { Ok(Ok(s)) => s, _ => return };
     let tree0 = guarded(|| w.disk.tree(true, None).map_err(|e| e.to_string()));
@@ -1311,7 +1960,15 @@ fn lean_check_answer(ans: &str, w: &mut World, vd: &mut Verdicts, last: &str) {
             if v != "-" { for f in v.split(',') { let parts: Vec<&str> = f.split(':').collect(); let p = String::from_utf8_lossy(&unhx(parts[0])).to_string(); if parts.get(1) == Some(&"1") { dirs.insert(p); } else { files.insert(p); } } }
         }
     }
-    let ok_hist = !hist.iter().any(|h| h.contains("=> err") || h.contains("new_fimg"));
+    // free-space accounting ("nothing leaks") is claimed for histories of successful operations.  A refused operation that
+    // leaves the reading as it was does not end such a history for this purpose; one that changes the free map does
+    // (e.g. a refused DOS 3.x put on a full catalog keeps the T/S list sector it reserved: outside C04)
+    let refused = last.contains("=> err") || last.contains("new_fimg");
+    if let Some(lf) = free {
+        if refused && w.last_reading.is_some() && w.last_reading != Some((lf, noleak)) && !w.leak_tainted { w.leak_tainted = true; vd.out.count("refused-op-changed-free-map"); }
+        w.last_reading = Some((lf, noleak));
+    }
+    let ok_hist = !w.leak_tainted;
     if let (Some(lf), Ok(sf)) = (free, w.free()) {
         // free-space accounting is claimed for histories of successful operations
         // the count must agree always; "nothing leaks" is claimed for histories of successful operations only
